@@ -86,3 +86,32 @@ def signs_file(head, y, ml, good, lists):
     t.append('Goal True. idtac "@@PA C15_signs_%d". Abort.\nPrint Assumptions C15_signs_%d.' % (y, y))
     return '\n'.join(t) + '\n', {'lines_in_theorem': len(S), 'boundary_lines_assumed_nonneg': ['%s.%s' % (f, n) if '.' not in n else n for f, n in boundary],
                                  'money_inputs': len(inputs), 'left_out_syntactic_cycle': [name_of[i] for i in dropped]}
+
+
+# ------------------------------------------------------------------------------------------- a concrete instance
+def instance_file(head, y, vals_txt, inps_txt, forms_txt):
+    """C15_fed_balance_<y> applied to the store of one REAL solved return: its hypotheses are met by a reachable state
+    (every line_fix by evaluating the regenerated line on that store inside Coq)."""
+    lines = ['24', '33', '34', '35a', '36', '37']
+    t = [head, 'From HV Require Import TaxModel.', 'From Gen Require Import Tax%d C15_fed_%d.' % (y, y),
+         'Open Scope Q_scope.', 'Open Scope string_scope.',
+         'Definition vals0 : list (string * pv) := %s.' % vals_txt,
+         'Definition inps0 : list (string * pv) := %s.' % inps_txt,
+         'Definition normv (v:pv) : pv := match v with PNum q => PNum (Qred q) | _ => v end.',
+         'Definition vals := Eval vm_compute in map (fun kv => (fst kv, normv (snd kv))) vals0.',
+         'Definition inps := Eval vm_compute in map (fun kv => (fst kv, normv (snd kv))) inps0.',
+         'Definition c0 : ctx := Ctx cat "1040" None vals inps %s (tax_fn %d cfg).' % (forms_txt, y),
+         'Definition evq (n:string) : Q := match slookup ("1040." ++ n) vals with Some (PNum q) => q | _ => 0 end.',
+         'Definition eiq (n:string) : Q := match slookup ("1040." ++ n) inps with Some (PNum q) => q | _ => 0 end.',
+         'Ltac reads_tac := split; intros n Hn; cbn in Hn;',
+         '  repeat (destruct Hn as [<-|Hn]; [eexists; split; [vm_compute; reflexivity|vm_compute; reflexivity]|]); try contradiction.',
+         'Example C15_fed_balance_on_a_real_return :',
+         '  (evq "34" - evq "37" == evq "33" - evq "24" /\\ ~ (0 < evq "34" /\\ 0 < evq "37") /\\ evq "35a" + evq "36" == evq "34"',
+         '   /\\ 0 <= evq "34" /\\ 0 <= evq "35a" /\\ 0 <= evq "36" /\\ 0 <= evq "37").',
+         'Proof.',
+         '  apply (C15_fed_balance_%d c0 evq eiq 5000%%nat); try (vm_compute; reflexivity); try lia.' % y,
+         '  all: unfold top_ok, f34, f35a, f36, f37; reads_tac.',
+         'Qed.',
+         'Goal True. idtac "@@INSTANCE". Abort.',
+         'Eval vm_compute in map (fun n => match evq n with q => (Qnum q, Zpos (Qden q)) end) %s.' % gen_forms.clist([gen_forms.cstr(x) for x in lines])]
+    return '\n'.join(t) + '\n'
